@@ -17,6 +17,7 @@ limitations under the License.
 package main
 
 import (
+	"sort"
 	"strings"
 
 	"github.com/gogo/protobuf/protoc-gen-gogo/generator"
@@ -82,6 +83,12 @@ func BuildMessage(plugin *Plugin, desc *generator.Descriptor, isRoot bool, path 
 		return nil, trace.Wrap(err)
 	}
 
+	oneOfNames := c.GetOneOfNames()
+	// Sort oneOf names if required, otherwise the output depends on the declaration order
+	if c.config.Sort {
+		sort.Strings(oneOfNames)
+	}
+
 	message := &Message{
 		NamePath:       c.GetNamePath(),
 		Name:           c.GetName(),
@@ -90,7 +97,7 @@ func BuildMessage(plugin *Plugin, desc *generator.Descriptor, isRoot bool, path 
 		Fields:         fields,
 		IsRoot:         isRoot,
 		InjectedFields: c.GetInjectedFields(),
-		OneOfNames:     c.GetOneOfNames(),
+		OneOfNames:     oneOfNames,
 		IsEmpty:        c.IsEmpty(),
 	}
 
